@@ -19,6 +19,8 @@ THEOREMS = [
     "TornadoModel.C27.intOrNone_digits",
     "TornadoModel.C27.honoured_fields_digits",
     "TornadoModel.C27.invalid_range_ignored_refuted",
+    "TornadoModel.C27.honoured_dash_valid",
+    "TornadoModel.C27.invalid_range_ignored",
 ]
 TRUSTED = [
     "hashlib.sha512 (ETag), email.utils.parsedate_to_datetime / datetime comparison (If-Modified-Since), "
@@ -41,9 +43,10 @@ CLAUSES = {
     "200 whole / 206 with Content-Range a-b/size and body = bytes a..b / 416 with */size / 304 without body, Content-Length = body length":
         "response_shape (every file, every header text, GET/HEAD) via plan_window (all size/start/end, omega) + getContent_window + parse_end_nonneg",
     "HEAD yields the same status and headers with no body": "head_same_headers",
-    "a Range header that is not a syntactically valid single byte-range is ignored": "invalid_range_ignored_full is refuted by 'bytes=1' (known finding); proved core: unparsed_range_ignored + "
-        "honoured_fields_digits/intOrNone_digits (an honoured header has unit 'bytes' and ASCII-digit fields); "
-        "tie only: invalid_range_ignored_goal (vs the RFC grammar Spec.validRange, for headers with a '-') is applied as the oracle to every case",
+    "a Range header that is not a syntactically valid single byte-range is ignored": "invalid_range_ignored (every header whose value contains a '-' and that the RFC grammar Spec.validRange rejects gives exactly "
+        "the no-Range response) via honoured_dash_valid (honoured + dash => grammatical) + unparsed_range_ignored + "
+        "honoured_fields_digits/intOrNone_digits; the dashless case: invalid_range_ignored_full is refuted by 'bytes=1' "
+        "(invalid_range_ignored_refuted, known finding); the oracle also evaluates Spec.validRange on every case",
 }
 PARALLEL = True
 CASE_TIMEOUT = 120
